@@ -45,6 +45,7 @@ CONSTANTS
   TypeOf,      \* [Pairs -> type name]
   RootTypes,   \* types that cannot be removed ({"Query"})
   Edits,       \* set of [body, doc, named] records EditBody may write
+  EncToks,     \* file encodings the user's editor may re-save a resolver file with ("crlf", "mixed", "nonl", "bom")
   HelperToks,  \* helper declaration tokens
   ImportToks,  \* import tokens
   CmtToks,     \* body / helper tokens whose source text contains a "/* ... */" comment
@@ -69,10 +70,11 @@ VARIABLES
   ok,       \* last Generate succeeded and every file it wrote parses
   comp,     \* "yes": the statements demand that the package compiles now; "unk": they do not
   dirty,    \* edits since the last Generate: "clean" < "go" (Go sources only) < "adds" (fields added) < "other"
+  enc,      \* [RFiles -> "lf" | EncToks]: line endings / BOM / missing final newline of the resolver file
   n,        \* history length
   act       \* label of the last step (observation only)
 
-vars == <<schema, texists, cfg, meth, helpers, imports, warn, gen, ok, comp, dirty, n, act>>
+vars == <<schema, texists, cfg, meth, helpers, imports, warn, gen, ok, comp, dirty, enc, n, act>>
 
 RFiles   == Files \cup {"resolver"}
 Types    == {TypeOf[p] : p \in Pairs}
@@ -108,6 +110,7 @@ Init ==
   /\ warn    = [f \in RFiles |-> {}]
   /\ gen     = [s |-> schema, t |-> texists, c |-> cfg]
   /\ ok = TRUE /\ comp = "yes" /\ dirty = "clean" /\ n = 0
+  /\ enc = [f \in RFiles |-> "lf"]
   /\ act = [name |-> "Init"]
 
 Step  == ok /\ n < MaxHist /\ n' = n + 1
@@ -121,14 +124,14 @@ EditBody(f, p, e) ==
   /\ meth' = [meth EXCEPT ![f][p] = [body |-> e.body, doc |-> e.doc, named |-> e.named, uses |-> @.uses]]
   /\ dirty' = Max3(dirty, "go")
   /\ act' = [name |-> "EditBody", f |-> f, p |-> p, e |-> e]
-  /\ UNCHANGED <<schema, texists, cfg, helpers, imports, warn, gen, ok, comp>>
+  /\ UNCHANGED <<schema, texists, cfg, helpers, imports, warn, gen, ok, comp, enc>>
 
 AddHelper(f, h) ==
   /\ Step /\ (\E p \in Pairs : Has(f, p)) /\ h \notin helpers[f]
   /\ helpers' = [helpers EXCEPT ![f] = @ \cup {h}]
   /\ dirty' = Max3(dirty, "go")
   /\ act' = [name |-> "AddHelper", f |-> f, h |-> h]
-  /\ UNCHANGED <<schema, texists, cfg, meth, imports, warn, gen, ok, comp>>
+  /\ UNCHANGED <<schema, texists, cfg, meth, imports, warn, gen, ok, comp, enc>>
 
 \* the user imports i in file f and uses it in the body of method p
 AddImport(f, p, i) ==
@@ -137,7 +140,16 @@ AddImport(f, p, i) ==
   /\ meth' = [meth EXCEPT ![f][p].uses = @ \cup {i}]
   /\ dirty' = Max3(dirty, "go")
   /\ act' = [name |-> "AddImport", f |-> f, p |-> p, i |-> i]
-  /\ UNCHANGED <<schema, texists, cfg, helpers, warn, gen, ok, comp>>
+  /\ UNCHANGED <<schema, texists, cfg, helpers, warn, gen, ok, comp, enc>>
+
+\* the user's editor re-saves resolver file f with another encoding (CRLF / mixed line endings, no final
+\* newline, UTF-8 BOM): the code is the same code, so nothing else changes - and Generate must cope
+Resave(f, e) ==
+  /\ Step /\ (\E p \in Pairs : Has(f, p)) /\ enc[f] # e
+  /\ enc' = [enc EXCEPT ![f] = e]
+  /\ dirty' = Max3(dirty, "go")
+  /\ act' = [name |-> "Resave", f |-> f, en |-> e]
+  /\ UNCHANGED <<schema, texists, cfg, meth, helpers, imports, warn, gen, ok, comp>>
 
 (* user edits of the schema *)
 
@@ -147,28 +159,28 @@ AddField(p, sf) ==
   /\ texists' = IF TypeOf[p] \in NonRoot THEN [texists EXCEPT ![TypeOf[p]] = TRUE] ELSE texists
   /\ dirty' = Max3(dirty, "adds")
   /\ act' = [name |-> "AddField", p |-> p, sf |-> sf]
-  /\ UNCHANGED <<cfg, meth, helpers, imports, warn, gen, ok, comp>>
+  /\ UNCHANGED <<cfg, meth, helpers, imports, warn, gen, ok, comp, enc>>
 
 RemoveField(p) ==
   /\ Step /\ Live(p)
   /\ schema' = [schema EXCEPT ![p] = "none"]
   /\ dirty' = "other"
   /\ act' = [name |-> "RemoveField", p |-> p]
-  /\ UNCHANGED <<texists, cfg, meth, helpers, imports, warn, gen, ok, comp>>
+  /\ UNCHANGED <<texists, cfg, meth, helpers, imports, warn, gen, ok, comp, enc>>
 
 RenameField(p, q) ==
   /\ Step /\ Live(p) /\ ~Live(q) /\ p # q /\ TypeOf[p] = TypeOf[q]
   /\ schema' = [schema EXCEPT ![q] = schema[p], ![p] = "none"]
   /\ dirty' = "other"
   /\ act' = [name |-> "RenameField", p |-> p, q |-> q]
-  /\ UNCHANGED <<texists, cfg, meth, helpers, imports, warn, gen, ok, comp>>
+  /\ UNCHANGED <<texists, cfg, meth, helpers, imports, warn, gen, ok, comp, enc>>
 
 MoveField(p, sf) ==
   /\ Step /\ Live(p) /\ schema[p] # sf
   /\ schema' = [schema EXCEPT ![p] = sf]
   /\ dirty' = "other"
   /\ act' = [name |-> "MoveField", p |-> p, sf |-> sf]
-  /\ UNCHANGED <<texists, cfg, meth, helpers, imports, warn, gen, ok, comp>>
+  /\ UNCHANGED <<texists, cfg, meth, helpers, imports, warn, gen, ok, comp, enc>>
 
 RemoveType(t) ==
   /\ Step /\ t \in NonRoot /\ texists[t]
@@ -176,7 +188,7 @@ RemoveType(t) ==
   /\ texists' = [texists EXCEPT ![t] = FALSE]
   /\ dirty' = "other"
   /\ act' = [name |-> "RemoveType", t |-> t]
-  /\ UNCHANGED <<cfg, meth, helpers, imports, warn, gen, ok, comp>>
+  /\ UNCHANGED <<cfg, meth, helpers, imports, warn, gen, ok, comp, enc>>
 
 ----------------------------------------------------------------------------
 (* The generator run.  GenResult(D) is the successor under deviation set D. *)
@@ -258,6 +270,7 @@ Generate(seed, dir, procs) ==
      /\ ok' = r.ok /\ comp' = r.comp
      /\ act' = [name |-> "Generate", seed |-> seed, dir |-> dir, procs |-> procs,
                 devs |-> Fired(Dev), regen |-> RegenOf(Dev), addsOnly |-> AddsOnly, wasClean |-> (dirty = "clean")]
+  /\ enc' = [f \in RFiles |-> IF f \in RegenOf(Dev) THEN "lf" ELSE enc[f]]   \* rewritten files are gofmt output
   /\ gen' = Fingerprint          \* C18: a function of (schema, texists, cfg) only
   /\ dirty' = "clean"
   /\ UNCHANGED <<schema, texists, cfg>>
@@ -272,6 +285,7 @@ Next ==
   \/ \E f \in RFiles, p \in Pairs, e \in Edits : EditBody(f, p, e)
   \/ \E f \in RFiles, h \in HelperToks : AddHelper(f, h)
   \/ \E f \in RFiles, p \in Pairs, i \in ImportToks : AddImport(f, p, i)
+  \/ \E f \in RFiles, e \in EncToks : Resave(f, e)
   \/ \E p \in Pairs, sf \in Files : AddField(p, sf)
   \/ \E p \in Pairs : RemoveField(p)
   \/ \E p \in Pairs, q \in Pairs : RenameField(p, q)
@@ -295,6 +309,7 @@ TypeOK ==
   /\ \A f \in RFiles, p \in Pairs : MethRecOK(meth[f][p])
   /\ \A f \in RFiles : helpers[f] \subseteq HelperToks /\ imports[f] \subseteq ImportToks
   /\ ok \in BOOLEAN /\ comp \in {"yes", "unk", "no"} /\ dirty \in {"clean", "go", "adds", "other"}
+  /\ enc \in [RFiles -> {"lf"} \cup EncToks]
   /\ n \in 0..MaxHist
 
 \* a field of a removed type is not live
@@ -397,18 +412,18 @@ Blame(name, D) ==
 ----------------------------------------------------------------------------
 (* labelled edges of the state graph for replay into the real generator *)
 
-Proj(sc, te, cf, me, he, im, wa, ge, o, co, di) ==
+Proj(sc, te, cf, me, he, im, wa, ge, o, co, di, en) ==
   [schema |-> sc, texists |-> te, cfg |-> cf, meth |-> me, helpers |-> he, imports |-> im, warn |-> wa,
-   gen |-> ge, ok |-> o, comp |-> co, dirty |-> di]
+   gen |-> ge, ok |-> o, comp |-> co, dirty |-> di, enc |-> en]
 
 EmitEdge ==
-  PrintT(ToJson([s |-> Proj(schema, texists, cfg, meth, helpers, imports, warn, gen, ok, comp, dirty),
+  PrintT(ToJson([s |-> Proj(schema, texists, cfg, meth, helpers, imports, warn, gen, ok, comp, dirty, enc),
                  a |-> act',
-                 t |-> Proj(schema', texists', cfg', meth', helpers', imports', warn', gen', ok', comp', dirty')]))
+                 t |-> Proj(schema', texists', cfg', meth', helpers', imports', warn', gen', ok', comp', dirty', enc')]))
 
 \* prints the initial states (CONSTRAINT in the edge-export configurations)
-EmitInit == (n = 0) => PrintT(ToJson([init |-> Proj(schema, texists, cfg, meth, helpers, imports, warn, gen, ok, comp, dirty)]))
+EmitInit == (n = 0) => PrintT(ToJson([init |-> Proj(schema, texists, cfg, meth, helpers, imports, warn, gen, ok, comp, dirty, enc)]))
 
 \* exhaustive configurations: the history length and the label are not part of the state identity
-View == <<schema, texists, cfg, meth, helpers, imports, warn, gen, ok, comp, dirty>>
+View == <<schema, texists, cfg, meth, helpers, imports, warn, gen, ok, comp, dirty, enc>>
 =============================================================================
